@@ -51,7 +51,25 @@ def recase(s, rng):
     return "".join(c.upper() if rng.chance(1, 2) else c.lower() for c in s)
 
 
-def files_of(ps, rng, missing=False):
+# what may stand above the class header / how the file is encoded (wsutil::render): b blank lines, c a comment line,
+# k a constant, a an annotation; l Latin-1 bytes (not valid UTF-8) in a comment, m a byte order mark, r CRLF line ends;
+# where the file is (wsutil::materialise): s two directories below the root, g extension written `.GOD`.
+# None of them changes what the file DECLARES: the model (and the declared relation) ignore them.
+DRESS = "bckalmrsg"
+
+
+def dress(rng):
+    """one file in three is dressed: one flag, or a random subset"""
+    if not rng.chance(1, 3):
+        return ""
+    if rng.chance(1, 2):
+        return DRESS[rng.below(len(DRESS))]
+    return "".join(c for c in DRESS if rng.chance(1, 3))
+
+
+def files_of(ps, rng, missing=False, dressed=True, headerless=False):
+    """headerless: one file in eight has NO class header (flag n): it declares no class — whoever names it as parent has a
+    parent without a class — but is read by the builder and takes its place in its chunk"""
     out = []
     for i, p in enumerate(ps):
         mem = [recase(m, rng) for m in MEMBERS if rng.chance(3, 5)]
@@ -60,8 +78,32 @@ def files_of(ps, rng, missing=False):
         else:
             par = recase(NAMES[p], rng)
         # one file in three also carries USE sites of every method name of the workspace (flag h; the model ignores it)
-        out.append("%s:%s:%s%s" % (NAMES[i], par, "+".join(mem) or "-", ":-:h" if rng.chance(1, 3) else ""))
+        flags = ("h" if rng.chance(1, 3) else "") + (dress(rng) if dressed else "")
+        if headerless and rng.chance(1, 8):
+            flags = "n" + flags.replace("h", "")
+        out.append("%s:%s:%s%s" % (NAMES[i], par, "+".join(mem) or "-", (":-:" + flags) if flags else ""))
     return ",".join(out)
+
+
+def gen_dressed(ctx, cases):
+    """every dressing flag alone, every pair and all of them, on every position of a chain with a side branch
+    (root, inner class, leaf) and on all files at once; deterministic (no rng): chunk sizes 1 and 2, default hand-overs"""
+    sets = list(DRESS) + [x + y for x, y in itertools.combinations(DRESS, 2)] + [DRESS]
+    shape = [("aKa", "-", "m1+f1"), ("aKb", "aKa", "m1+m2"), ("aKc", "AKB", "m2+f1"), ("aKd", "aka", "m1")]
+    for fl in sets:
+        for where in ([0], [1], [2], [3], [0, 1, 2, 3]):
+            fs = ",".join("%s:%s:%s%s" % (n, p, m, (":-:" + fl + ("h" if i == 2 else "")) if i in where else (":-:h" if i == 2 else ""))
+                          for i, (n, p, m) in enumerate(shape))
+            for chunk in (1, 2):
+                cases.append("tree %s %d 2 c -" % (fs, chunk))
+                ctx.count("dressed headers / encodings (deterministic)")
+    # a file WITHOUT class header at every position (named as parent by the classes below it), alone and dressed
+    for where in range(4):
+        for fl in ("n", "ncl", "nbmr"):
+            fs = ",".join("%s:%s:%s%s" % (n, p, m, (":-:" + fl) if i == where else (":-:h" if i == 2 else "")) for i, (n, p, m) in enumerate(shape))
+            for chunk, ch in ((1, ""), (1, "0.1.1"), (2, "1"), (3, "")):
+                cases.append("tree %s %d 2 c%s -" % (fs, chunk, ch))
+                ctx.count("file without class header among the classes (deterministic)")
 
 
 def random_forest(n, rng):
@@ -89,6 +131,8 @@ def gen_cases(ctx):
         cases += [l.strip() for l in open(corpus) if l.strip() and not l.startswith("#")]
     ncorpus = len(cases)
     quick = ctx.tier == "quick"
+    gen_dressed(ctx, cases)
+    ndressed = len(cases) - ncorpus
     seqs = list(choice_seqs(6 if quick else 8))
     for n in range(1, 5):
         for ps in forests(n):
@@ -98,11 +142,11 @@ def gen_cases(ctx):
                     order = ".".join(map(str, ctx.rng.shuffle(list(range(n)))))
                     cases.append("tree %s %d 2 c%s %s" % (fs, chunk, ".".join(map(str, ch)), order))
                     ctx.count("forced n=%d" % n)
-    nexh = len(cases) - ncorpus
+    nexh = len(cases) - ncorpus - ndressed
     # larger forests, three workers, longer choice lists (candidates can be 3 wide)
     for _ in range(300 if quick else 20000):
         n = 5 + ctx.rng.below(2)
-        fs = files_of(random_forest(n, ctx.rng), ctx.rng, missing=True)
+        fs = files_of(random_forest(n, ctx.rng), ctx.rng, missing=True, headerless=True)
         chunk = 1 + ctx.rng.below(n)
         w = 2 + ctx.rng.below(2)
         ch = [ctx.rng.below(3) for _ in range(ctx.rng.below(12))]
@@ -111,7 +155,7 @@ def gen_cases(ctx):
     # free-running stress: the production pool size, chunk size 1
     for _ in range(400 if quick else 30000):
         n = 3 + ctx.rng.below(4)
-        fs = files_of(random_forest(n, ctx.rng), ctx.rng)
+        fs = files_of(random_forest(n, ctx.rng), ctx.rng, headerless=True)
         cases.append("tree %s %d 7 free -" % (fs, 1 + ctx.rng.below(2)))
         ctx.count("free-7-workers n=%d" % n)
     # wide stars under free-running workers: many chunks link their class to ONE parent at the same time
@@ -147,9 +191,13 @@ def classify(impl, spec):
     kinds = set()
     a, s = impl.split(), spec.split()
     if len(a) != len(s):
+        # a failed prepare leaves out the answers of that class / member: compare the others by their keys
         kinds.add("prepare-failed" if "prep!" in impl else "crash-or-shape")
-        return kinds
-    for x, y in zip(a, s):
+        have = dict(w.split("=", 1) for w in a if "=" in w)
+        pairs = [(k + "=" + have[k], y) for y in s for k in [y.split("=", 1)[0]] if k in have]
+    else:
+        pairs = list(zip(a, s))
+    for x, y in pairs:
         if x == y:
             continue
         if x.startswith("prep!"):
@@ -178,6 +226,8 @@ def use_site_failures(case, ans, us):
     files = {}
     for f in case.split()[1].split(","):
         p = f.split(":")
+        if len(p) > 4 and "n" in p[4]:
+            continue            # no class header: not a class, declares nothing for the forest
         files[p[0].upper()] = ((p[1].upper() if p[1] != "-" else None), [m.upper() for m in (p[2].split("+") if len(p) > 2 and p[2] != "-" else [])])
     decl = dict(w.split("=", 1) for w in ans.split(" ") if "=" in w)
     got = dict(w.split("=", 1) for w in us if "=" in w)
@@ -228,7 +278,7 @@ def run(ctx):
         "harness/src/modes/tree.rs + wsutil.rs (real DocumentService/EntityTreeService/ThreadPool/ProjectManager on materialised workspaces; serialised scheduler over the yield point and the pool's own log lines), lean_exe compilation of the driver",
     ]
     ctx.assumptions += [
-        "file stem = class name (class_uri_map is keyed by the stem); one class per file",
+        "file stem = class name (class_uri_map is keyed by the stem); at most one class per file; what stands above the header (blank lines, comments, a constant, an annotation), the encoding of the file (Latin-1 bytes, byte order mark, CRLF), its directory and the letter case of its extension do not change what it declares: the model and the declared relation ignore these flags, a file without class header declares no class",
         "member walks: the model takes fuel; the theorems are for all sufficiently large fuel (termination included), wall-clock is not modelled",
         "forced schedules hand over only at the yield point between lookup and insert and at chunk boundaries (coarser than the model's atomic steps); finer interleavings are covered by the theorem and sampled by the free-running 7-worker runs",
     ]
@@ -289,7 +339,10 @@ def run(ctx):
                                         "all rooted forests on 1..4 classes x chunk sizes 1..n x all binary hand-over choice lists up to the tier's length (2 workers)"})
 
 
-RULE = ("cases = corpus + every forest on 1..4 classes (random member sets and letter case of parent references) x chunk size 1..n x every "
+RULE = ("cases = corpus + (deterministic) every dressing of a class file — blank lines, a comment, a constant, an annotation above the header; Latin-1 bytes "
+        "that are not valid UTF-8, a byte order mark, CRLF line ends; the file in a sub-directory, its extension written .GOD — alone, in pairs and all at once on "
+        "every position of a four-class forest, and a file without class header on every position; the same dressings on one file in three of all other cases, "
+        "files without class header in the random families; + every forest on 1..4 classes (random member sets and letter case of parent references) x chunk size 1..n x every "
         "binary choice list up to length 6 (quick) / 8 (thorough) for the serialised 2-worker scheduler, each under a random requested enumeration order; "
         "+ random forests on 5..6 classes (some with a missing parent) with 2..3 workers; + free-running builds with 7 workers. Every case: real "
         "build_tree_parallel, then prepare/supertypes/subtypes for every class and every declared member. "
@@ -310,6 +363,8 @@ def replay(ctx):
     for attempt in range(3):     # free-running cases race: show three runs
         h = ctx.run_harness("tree", [line])[0]
         m, a = split_out(h)
+        us = [w for w in a.split(" ") if w.startswith("use")]
+        a = " ".join(w for w in a.split(" ") if not w.startswith("use"))
         spec = ctx.run_driver([driver_line("treespec", line, m.get("order"))])[0]
         model = ctx.run_driver([driver_line("tree", line, m.get("order"))])[0]
         print("case            :", line)
@@ -318,6 +373,11 @@ def replay(ctx):
         print("declared relation:", spec)
         if a != spec:
             rc = 1
+            for k in sorted(classify(a, spec)):
+                print("  C13:%s — %s" % (k, WHAT[k]))
+        for sig, what in use_site_failures(line, a, us):
+            rc = 1
+            print("  C13:%s — %s" % (sig, what))
         if " free " not in line:
             break
     if rc:
